@@ -155,7 +155,12 @@ func checkList(c listCase) error {
 		}
 		id := fmt.Sprintf("a%02d", i)
 		ids = append(ids, id)
+		plain := recipe.Id(id)
 		switch {
+		case c.NullHead && i%8 == 4:
+			// a group with delimiters whose items are all null: the delimiters stay (it is no null item)
+			with = append(with, recipe.S().C("Custom", &recipe.Opts{Open: recipe.Text(id + "("), Close: ")", Separator: ","}, []*recipe.Node{recipe.Null(), recipe.Nil()}))
+			plain = recipe.S().C("Custom", &recipe.Opts{Open: recipe.Text(id + "("), Close: ")", Separator: ","}, []*recipe.Node{})
 		case c.NullHead && i%8 == 1:
 			with = append(with, recipe.S().C("Null").C("Id", id))
 		case c.NullHead && i%8 == 2:
@@ -172,8 +177,8 @@ func checkList(c listCase) error {
 		default:
 			with = append(with, recipe.Id(id))
 		}
-		without = append(without, recipe.Id(id))
-		marked = append(marked, recipe.Id(id))
+		without = append(without, plain)
+		marked = append(marked, plain.Clone())
 	}
 	if c.AfterFailures {
 		// a qualified identifier as last item (a nil File panics when it meets one); the reference lists
